@@ -113,6 +113,10 @@ func AddSegStatsLatestEarliestVal(segstats map[string]*SegStats, cname string, c
 		stats.CreateNewHll()
 		segstats[cname] = stats
 	}
+	if stats.TimeStats == nil {
+		// the entry was created by a value of an earlier record (AddSegStatsNums/Str)
+		stats.TimeStats = GetDefaultTimeStats()
+	}
 	var nonEncVal uint64
 	var err error
 	if updateLatest {
@@ -164,6 +168,10 @@ func AddSegStatsUNIXTime(segstats map[string]*SegStats, cname string, val uint64
 		stats.TimeStats.LatestTs.CVal = latestTs
 		stats.CreateNewHll()
 		segstats[cname] = stats
+	}
+	if stats.TimeStats == nil {
+		// the entry was created by a value of an earlier record (AddSegStatsNums/Str)
+		stats.TimeStats = GetDefaultTimeStats()
 	}
 
 	if updateLatest {
